@@ -116,10 +116,12 @@ PROPS["C10"] = {
     "rule": ("Scenario = request histories (waiters, expiry, purge, LRU 8 or 1000) + per-call store fault scripts {not-found, error, truncated record, record with corrupted status, garbage} on get, error on set/delete. "
              "Oracle = the C01/C04 automaton with the store invisible (a bad or missing record is a miss; permissive only where a record may legitimately survive). "
              "Non-trivial = >=1 injected fault actually consumed by a store call, with a waiter or >=3 requests. "
-             "TestC10StoreOpen (engine N): the cache is configured with one of pike's real back ends in a state in which it cannot work (badger directory that cannot be created / is a regular file / is locked by another cache under another spelling, redis nobody listens on); 3-8 requests on cacheable and uncacheable keys must all be answered 200 with the upstream's body and memory hits keep working."),
+             "TestC10StoreOpen (engine N): the cache is configured with one of pike's real back ends in a state in which it cannot work (badger directory that cannot be created / is a regular file / is locked by another cache under another spelling, redis nobody listens on); 3-8 requests on cacheable and uncacheable keys must all be answered 200 with the upstream's body and memory hits keep working. "
+             "TestC10SlowStore (engine N): a store whose calls take 20-80 ms; a hit or hit-for-pass record that left the one-entry memory is looked up by the first of 2-5 staggered concurrent requests: all of them must be answered."),
     "assumptions": _SIM_ASSUME + ["store delays are not simulated in the bubble (a goroutine sleeping inside a pike lock would wedge it)",
                                   "records with a corrupted status field or random garbage make the key's model permissive: only completion and response correctness are demanded"],
     "jobs": [_sim("TestC10", 1500, 40000),
+             {"engine": "netw", "test": "TestC10SlowStore", "quick": {"shards": 4, "checks": 20, "timeout": 400, "shrinktime": "10s"}, "thorough": {"shards": 8, "checks": 400, "timeout": 3400, "shrinktime": "30s"}},
              {"engine": "netw", "test": "TestC10StoreOpen", "quick": {"shards": 4, "checks": 30, "timeout": 400, "shrinktime": "10s"}, "thorough": {"shards": 8, "checks": 600, "timeout": 3400, "shrinktime": "30s"}}],
 }
 PROPS["C18"] = {
